@@ -201,7 +201,7 @@ func (pd *perRawBitData) appendBitString(bytes []byte, bitsLength uint64, extens
 
 	var byteOffset, partOfRawLength uint64
 	for {
-		if rawLength > 65536 {
+		if rawLength >= 65536 {
 			partOfRawLength = 65536
 		} else if rawLength >= 16384 {
 			partOfRawLength = rawLength & 0xc000
@@ -228,6 +228,10 @@ func (pd *perRawBitData) appendBitString(bytes []byte, bitsLength uint64, extens
 		} else {
 			pd.bitsOffset += uint(partOfRawLength & 0x7)
 			// pd.appendAlignBits()
+			if sizeRange == -1 && partOfRawLength >= 16384 {
+				// X.691 10.9.3.8: a length ending on a 16K fragment is closed by a zero length determinant
+				err = pd.appendLength(sizeRange, 0)
+			}
 			break
 		}
 	}
@@ -293,7 +297,7 @@ func (pd *perRawBitData) appendOctetString(bytes []byte, extensive bool, lowerBo
 
 	var byteOffset, partOfRawLength uint64
 	for {
-		if rawLength > 65536 {
+		if rawLength >= 65536 {
 			partOfRawLength = 65536
 		} else if rawLength >= 16384 {
 			partOfRawLength = rawLength & 0xc000
@@ -318,6 +322,10 @@ func (pd *perRawBitData) appendOctetString(bytes []byte, extensive bool, lowerBo
 			byteOffset += partOfRawLength
 		} else {
 			// pd.appendAlignBits()
+			if sizeRange == -1 && partOfRawLength >= 16384 {
+				// X.691 10.9.3.8: a length ending on a 16K fragment is closed by a zero length determinant
+				return pd.appendLength(sizeRange, 0)
+			}
 			break
 		}
 	}
@@ -564,7 +572,7 @@ func (pd *perRawBitData) appendOpenType(v reflect.Value, params fieldParameters)
 
 	var byteOffset, partOfRawLength uint64
 	for {
-		if rawLength > 65536 {
+		if rawLength >= 65536 {
 			partOfRawLength = 65536
 		} else if rawLength >= 16384 {
 			partOfRawLength = rawLength & 0xc000
@@ -588,6 +596,10 @@ func (pd *perRawBitData) appendOpenType(v reflect.Value, params fieldParameters)
 			byteOffset += partOfRawLength
 		} else {
 			pd.appendAlignBits()
+			if partOfRawLength >= 16384 {
+				// X.691 10.9.3.8: a length ending on a 16K fragment is closed by a zero length determinant
+				return pd.appendLength(-1, 0)
+			}
 			break
 		}
 	}
